@@ -36,8 +36,12 @@ def make_scenario(rng):
                 ops.append(('cpublish', c, rng.choice(['ack', 'nack']), rng.randint(0, 300)))
             elif role == 'consume' and k < 0.4:
                 ops.append(('consume', c, 'tag-%d-%d' % (t, len(ops))))
-            elif role == 'consume' and k < 0.6:
+            elif role == 'consume' and k < 0.55:
                 ops.append(('feed', c, rng.randint(0, 200)))
+            elif role == 'consume' and k < 0.68:
+                ops.append(('bcancel', c))      # the broker cancels one of the channel's consumers unprompted
+            elif role == 'consume' and k < 0.76:
+                ops.append(('cancel', c))       # the application cancels one of them
             elif k < 0.75:
                 ops.append(('declare', c, 'q-%d-%d' % (t, len(ops))))
             elif k < 0.85:
@@ -115,6 +119,17 @@ def run_one(args):
                         r = ch.basic.consume(lambda m, i=i: consumed[i].append(m._body), 'cq%d' % i, consumer_tag=op[2], no_ack=True)
                         if r != op[2]:
                             out['wrong'].append(('consume', op[2], r))
+                    elif kind == 'bcancel':
+                        live = sorted(broker.channels.get(ch.channel_id, {}).get('consumers', {}))
+                        if live:
+                            broker.cancel_consumer(ch.channel_id, live[0])
+                    elif kind == 'cancel':
+                        mine = list(ch.consumer_tags)
+                        if mine:
+                            try:
+                                ch.basic.cancel(mine[0])
+                            except amqpstorm.AMQPChannelError:
+                                raise
                     elif kind == 'feed':
                         feed_seq[0] += 1
                         broker.enqueue('cq%d' % op[1], ('m%d-' % feed_seq[0]).encode() * (1 + op[2]))
